@@ -233,12 +233,12 @@ class BleDomain(Registry):
     def is_packet_compat(self, packet) -> bool:
         """Determine if a packet is a compatible BLE packet
         """
-        return isinstance(packet.metadata, BLEMetadata)
+        return isinstance(getattr(packet, "metadata", None), BLEMetadata)
 
     def convert_packet(self, packet) -> Optional[HubMessage]:
         """Convert a BLE packet to SendPdu or SendBlePdu message.
         """
-        if isinstance(packet.metadata, BLEMetadata):
+        if isinstance(getattr(packet, "metadata", None), BLEMetadata):
             if packet.metadata.raw:
                 return BleDomain.bound('send_raw_pdu', self.proto_version).from_packet(
                     packet, encrypt=packet.metadata.encrypt
